@@ -55,10 +55,14 @@ def postprocess_section(ctx):
         want_draw = {}
         for n in ("a", "b", "c"):
             p = RecordingPen(); gs0[n].draw(p); want_draw[n] = p.value
-        for opt, subr, outv in list(GRID) + [(o, sb, None) for o in (0, 1, 2) for sb in (None, "cffsubr", "compreffor")]:
+        # (the version argument given -- None = "same as the input" -- or left out altogether: the documented default is the same)
+        for opt, subr, outv in list(GRID) + [(o, sb, v) for v in (None, "omitted") for o in (0, 1, 2) for sb in (None, "cffsubr", "compreffor")]:
             case = {"input_table": "CFF " if inv == 1 else "CFF2", "options": {"optimizeCFF": opt, "subroutinizer": subr, "cffVersion": outv}}
-            ctx.count(); ctx.klass("post-process a compiled %s font" % case["input_table"].strip())
+            ctx.count(); ctx.klass("post-process a compiled %s font%s" % (case["input_table"].strip(), " (no cffVersion argument)" if outv == "omitted" else ""))
             kw = {"optimizeCFF": opt, "cffVersion": outv}
+            if outv == "omitted":
+                del kw["cffVersion"]
+                outv = None
             if subr:
                 kw["subroutinizer"] = subr
             obs, got = None, None
